@@ -1,6 +1,7 @@
 import Driver.Map
 import Driver.Sub
 import Driver.Types
+import Driver.Ext
 import MdspanVerif.Model.ValidB
 open Mdspan Drv
 
@@ -9,6 +10,9 @@ def step (line : String) : String :=
   | "map" :: kind :: ty :: rest => mapLine kind ty rest
   | "sub" :: kind :: ty :: rest => subLine kind ty rest
   | "subtype" :: lay :: _ :: rest => subtypeLine lay rest
+  | "ext" :: t :: s :: rest => extLine t s rest
+  | "extconv" :: t :: u :: rest => extconvLine t u rest
+  | "exteq" :: t :: u :: rest => exteqLine t u rest
   | "dot" :: rest =>
     let ss := (parseList ((getKey rest "str").getD "-")).map Int.toNat
     let is := (parseList ((getKey rest "idx").getD "-")).map Int.toNat
